@@ -55,6 +55,11 @@ const (
 	// that is paired with an empty or unparseable signature (Core checks the
 	// encoding of every key it pairs with a signature).
 	QuirkMultisigSkipsPubkeyCheck
+	// QuirkTapscriptEmptySigSkipsPubkeyType: tapscript CHECKSIG(VERIFY) /
+	// CHECKSIGADD return early for an empty signature, before the
+	// DISCOURAGE_UPGRADABLE_PUBKEYTYPE test of an unknown public key type
+	// (Core applies that test whatever the signature is).
+	QuirkTapscriptEmptySigSkipsPubkeyType
 )
 
 func hash160(b []byte) []byte {
@@ -767,7 +772,8 @@ func (m *machine) evalChecksig(sig, pk, scriptCode []byte, sv sigVersion, tctx *
 				}
 			}
 		default:
-			if flags&DiscourageUpgradablePubkeyType != 0 {
+			if flags&DiscourageUpgradablePubkeyType != 0 &&
+				!(m.quirks&QuirkTapscriptEmptySigSkipsPubkeyType != 0 && len(sig) == 0) {
 				return false, ErrDiscourageUpgradablePubkeyType
 			}
 		}
